@@ -66,6 +66,12 @@ fixed("FX3-symbolic-normalize-parentheses", ["C05"], "75632d5",
 fixed("FX4-bitvector-iand", ["C34"], "ba4cb95",
       "BitVector.__iand__ left the blocks of self beyond other's length unchanged ({1,40} &= {1} gave {1,40})",
       "a=BitVector(); a.add(1); a.add(40); b=BitVector(); b.add(1); a &= b; sorted(a) == [1, 40]")
+fixed("FX5-struct-cmp-numbers", ["C15", "C33"], "b2da9d2",
+      "struct_cmp fell through to the functor-string comparison when two numbers differ: 10 @< 9 true, sort([10,9,2,1]) = [1,10,2,9]",
+      "q :- 10 @< 9. query(q).   s(L) :- sort([10,9,2,1],L).")
+fixed("FX6-same-var-vs-negative-int", ["C15"], "0de22f3",
+      "-1 == X succeeded for an unbound variable X (variables are negative ints internally)",
+      "e :- -1 == X. query(e).")
 fixed("FX1-break-cycles-true-child", ["C01", "C09"], "29bdee9",
       "AssertionError in LogicFormula.get_node(0) from _break_cycles when a disjunction below an evidence node contains the TRUE node",
       "0.1::h(c1). d(c1). d(c2). p(X) :- d(X), r(c1). p(Y) :- d(Y). r(X) :- p(X). r(Y) :- d(Y), h(X). query(p(c1)). evidence(r(c1)).")
